@@ -361,6 +361,27 @@ def run(chk):
          'literal [] gets no list type, so `x = []; x = 5` or a number field typed from '
          '[] passes the checker', fi=ll, node=unif[0])
 
+  # a type reached twice through sibling fields is not a cycle: the set of
+  # ancestors used to stop at cyclic types belongs to ONE path of the walk -
+  # it is extended by building a new set, never by changing the shared one
+  vc = repo.func('reference_algebra.VeryConcreteType')
+  seen_param = [p_ for p_ in vc.params if p_ != vc.params[0]]
+  inplace = [x for x in walk_local(vc.node)
+             if (isinstance(x, ast.Call) and isinstance(x.func, ast.Attribute) and
+                 x.func.attr in ('add', 'update') and dotted(x.func.value) in seen_param) or
+             (isinstance(x, ast.AugAssign) and dotted(x.target) in seen_param and
+              isinstance(x.op, ast.BitOr))]
+  recursive = [c for c in walk_local(vc.node) if isinstance(c, ast.Call) and
+               call_tail(c) == vc.name]
+  if not seen_param or not recursive:
+    raise AnalysisError('VeryConcreteType: recursive walk with an ancestor set not recognised')
+  chk.ob('C05-R6', not inplace, None,
+         'the ancestor set of the recursive type rendering is extended per path',
+         '`%s` changes the set that sibling branches share: a record or list type that occurs '
+         'in two fields of one record is taken for a cycle and rendered as an error type, so '
+         'a well-typed program gets a wrong (non-ground) signature'
+         % (norm(inplace[0], 50) if inplace else ''), fi=vc, node=inplace[0] if inplace else None)
+
 
 def expression_keys(repo):
   """{key: (fi, node)}: dict entries in parse.py whose value is produced by
